@@ -409,6 +409,7 @@ pub open spec fn in_fragment(e: IdedExpr) -> bool
             || (c.args@.len() == 1 && is_operator_form(c) && in_fragment(c.args@[0]))
             || (!is_operator_form(c) && (c.target matches Some(t) ==> in_fragment(*t)))
         }
+        Expr::Select(s) => in_fragment(*s.operand),
         Expr::List(l) => forall|i: int| 0 <= i < l.elements@.len() ==> in_fragment(#[trigger] l.elements@[i]),
         Expr::Map(m) => forall|i: int| 0 <= i < m.entries@.len() ==> ((#[trigger] m.entries@[i]).expr matches EntryExpr::MapEntry(en) && in_fragment(en.key) && in_fragment(en.value)),
         _ => false,
